@@ -40,6 +40,7 @@ def N(t):
         user_reg=r'^c15_reg::operator\(\)\(cocls::signal<int>::collector\)$',
         sp_make=r'^std::__shared_count<\(__gnu_cxx::_Lock_policy\)2>::__shared_count<' + s + r'::state, std::allocator<void>>\(',
         st_ctor='^' + s + r'::state::state\(\)$',
+        aw_subscribe=AWSUB,
     )
 ABSTRACT = ('user_cb', 'user_reg', 'sp_make')
 def unit(name, alias, t='int', uses=(), harness=None, extra_types=None, ptypes=None, extra_boundary=(), extra_defines=(), names_opt_extra=None, extra_roots=(), **kw):
@@ -65,6 +66,9 @@ UNITS = [
     unit('collect_void', 'co_call_void', t='void'),
     unit('em_ready', 'em_ready'),
     unit('em_suspend', 'em_suspend'),
+    unit('em_suspend_xthread', 'em_suspend', harness='h_em_suspend', extra_boundary=[AWSUB], names_opt_extra={'aw_subscribe_abs': AWSUB}, loop_contracts=False,
+         note='awaiter::subscribe replaced by its contract in operational form (unit aw_subscribe) followed by the emitting thread destroying the listener'),
+    unit('aw_subscribe', 'aw_subscribe', extra_defines=['CV_HAS_aw_subscribe_u 1']),
     unit('em_resume', 'em_resume'),
     unit('awt_resume', 'awt_resume', uses=('user_cb',), ptypes=awt_ptypes('int'), extra_boundary=[N('int')['user_cb']], timeout=600),
     unit('awt_invoke', 'awt_invoke', ptypes=awt_ptypes('int'), extra_boundary=[N('int')['awt_resume']], extra_defines=['CV_HAS_awt_invoke_u 1'], names_opt_extra={'awt_resume_abs': N('int')['awt_resume']}),
@@ -95,7 +99,8 @@ def drive(name, what, unwind=8, **kw):
              lib=['rt_core.c', 'rt_atomic_seq.c', 'model_signal.c', 'model_dq_ring.c', 'model_heap_frames.c'], spec=['C15/h_drive.c'], harness='h_drive',
              defines=['CV_NO_HEAP_PRIMS 1', 'CV_NO_SPURIOUS_CAS 1', 'CV_SG_SEQ_ATOMICS 1', 'CV_SG_POINTEE STATE', 'CV_SG_DISPOSE st_dtor',
                       'CV_FRAME_KINDS X(1, S_c15_listener_Frame)', 'DRIVE_%s 1' % name],
-             unwind=unwind, object_bits=11, kind='bounded', timeout=200, bounded=what, under_contract=[])
+             unwind=unwind, object_bits=11, kind='bounded', timeout=600, bounded=what, under_contract=[],
+             replay=dict(src='c15_drive.cpp', mode='C15', flags=['-I', '/verif/drivers', '-g', '-fsanitize=address,undefined']))
     d.update(kw)
     return d
 def shape(nl, late, lim):
@@ -106,4 +111,40 @@ def shape(nl, late, lim):
 UNITS += [shape(1, 0, 1), shape(1, 0, 2), shape(1, 0, 3), shape(2, 0, 2), shape(2, 1, 1), shape(2, 1, 3), shape(3, 0, 1), shape(3, 0, 3),
     drive('disconnected', 'one listener on an emitter whose signal was destroyed, one on a default-constructed emitter'),
 ]
-META = {}
+META = dict(
+    level='proof',
+    level_text=('Every function of signal.h that the property speaks about is verified against a contract taken from the property statement, thread-modularly: '
+        'state::notify_awaiters, state::~state, collector::operator() (rvalue / by value / lvalue reference / void), emitter::await_ready / await_suspend / await_resume (int and void), '
+        "connect(), its heap awaiter Awt (constructor, the resume lambda, Awt::resume for int and void, Awt::initial_reg), get_emitter / get_collector, ~signal, awaiter::subscribe and "
+        'hook_up_emitter::await_suspend (first and later co_awaits). The awaiter chain runs through protocol-S primitives: at every atomic step the environment may push other listeners, '
+        'and - when the verified code is on the listening side - the emitting thread may detach the chain at any instant; std::shared_ptr/weak_ptr<state> is an explicit control block whose '
+        'drop-to-zero runs the REAL translated ~state, and other threads may copy / drop their handles at every step (so the state may die before lock(), and the reference lock() took may '
+        'become the last one). Clauses: a collector call makes the current-value pointer refer to the emitted value (an owned copy, or the caller\'s object for the lvalue overload) BEFORE it '
+        'detaches the WHOLE chain by exactly one acquire exchange and hands exactly the detached value to the chain walk exactly once (the released coroutines travel in the returned suspend '
+        'point); await_suspend subscribes - one release CAS of a complete node linked to the value it replaced - iff the state was alive at the instant of lock(), and touches nothing of the '
+        'emitter after a successful push (the emitting thread may already have destroyed it); await_resume returns THE current value iff state alive and value present, otherwise throws '
+        'await_canceled_exception (type identity checked); ~state clears the value first, then releases exactly the listeners still waiting and resumes them at once; the last handle runs '
+        '~state, earlier ones do not; a callback awaiter calls its function exactly once per emission with the current value, re-subscribes itself iff it returned true and otherwise deletes '
+        'itself exactly once - also on disconnect, then without calling the function; hook_up subscribes BEFORE the collector is handed to the registration function and releases the '
+        'coroutine (no value) if the collector is dropped. Bounded drives of really lowered listener coroutines cross-check the composition.'),
+    level_note=('Trusted: protocol-S primitives, their rely and the control-block model (lib/model_signal.c), rely/guarantee soundness argument (DESIGN 3.5), abstract callees (awaiter::resume_chain_lk - its walk '
+        '"every node of the chain handed over is resumed exactly once" is verified, bounded, in specs/C02; suspend_point::suspend_now - C05; the user callback and registration function as recording '
+        'stubs), clang front end, ir2c. The step from "the detached chain is handed to the walk" to "every listener that was waiting is in that chain" is the LIFO link argument (each push links '
+        'to the value it replaced: clause gh_push_next == gh_push_seen; nobody but the emitting side removes nodes) - argued, and exercised by the bounded drives, not machine-checked as an unbounded lemma. '
+        'Documented preconditions written as requires: collector calls are not MT safe (one emitting thread), the previous suspend point has been released before the next collector call, '
+        'a callback awaiter is resumed only by an emission (value present) or after the state died. BOUNDED (never counted as discharged): drives with 1..3 coroutine listeners (+1 arriving '
+        'between the signals) + 1 connected callback (stopping after 1, 2 or never), exactly 2 emissions with symbolic values, destruction of every handle, plus awaiting a destroyed / never '
+        'connected emitter; single thread, std::atomic<awaiter*> read at member-function level, no spurious CAS failure; control (number of listeners, callback limit) is concrete per unit because '
+        'symbolic control makes the lowered state machines fork beyond reach (measured). The drive oracle is confirmed natively (g++, ASan/UBSan) by replay/c15_drive.cpp. '
+        'Not covered: value types other than int / void (move-only, instance-counted), emitter copy / move / assignment operators, collector::operator signal(), hook_up() factory itself, '
+        'a user callback that throws (std::terminate by noexcept), liveness.'),
+    technique='CBMC code contracts + loop contracts (CAS retry loop) via goto-instrument --dfcc on the C translation of clang IR of signal.h / awaiter.h; atomic instructions on the chain replaced by rely/guarantee protocol primitives with ownership ghosts; shared_ptr/weak_ptr as an explicit control block running the real destructor; bounded symbolic execution of really lowered coroutines',
+    trusted_base=['protocol-S atomic primitives and environment model for state::_chain (lib/model_signal.c part A)',
+                  'std::shared_ptr / std::weak_ptr<state> control-block model incl. other threads copying / dropping handles (lib/model_signal.c part B); libstdc++ keeps one implicit weak reference for the strong owners until the pointee is destroyed - modelled',
+                  'abstract callees recorded in ghost state (specs/C15/c15_spec.h): awaiter::resume_chain_lk, suspend_point<void>::suspend_now, user callback, registration function; awaiter::subscribe in operational contract form in unit em_suspend_xthread',
+                  'bounded drives only: concrete ring model of std::deque<coroutine_handle<>> (lib/model_dq_ring.c), typed coroutine frames (lib/model_heap_frames.c), std::atomic<awaiter*> at member-function level (specs/C15/h_drive.c)'],
+    assumptions=['rely/guarantee soundness: if every step of every thread conforms, every interleaving satisfies the protocol (argued, DESIGN 3.5)', 'atomic RMWs on one location are totally ordered (C++ coherence)',
+                 'collector::operator() is called by one thread at a time and only after the previous suspend point was released (documented in signal.h)',
+                 'awaiter::resume_chain_lk resumes every node of the chain it is handed exactly once (C02, bounded N)', 'T = int and void; other value types not instantiated',
+                 'bounded drives: 1..3(+1) listeners, 1 callback, 2 emissions, single thread'],
+    explanation='see level_text')
